@@ -1113,6 +1113,87 @@ theorem bounded_after_key (ht : TilingEnv env) {e e' : Editor D L} {ev : KeyEven
       show sh'.com.len ≤ _
       omega
 
+/-! `EnteringSyllable` never reports *commit* itself (a commit there can only come from the auto-commit) -/
+
+def NoCommit (r : StepRes D L) : Prop := ∀ sh' t, r = .ok (sh', t) → t ≠ .spin .commit
+
+macro "nocommit_leaf" : tactic =>
+  `(tactic| (intro sh' t h; injection h with h; injection h with h1 h2; subst h2; intro c; cases c))
+
+theorem nocommit_withCom (sh : Shared D L) (r : Outcome CompEditor) (k : Shared D L → StepRes D L)
+    (hk : ∀ c, NoCommit (k { sh with com := c })) : NoCommit (withCom sh r k) := by
+  unfold withCom
+  split
+  · exact hk _
+  · intro sh' t h; cases h
+  · intro sh' t h; cases h
+
+theorem nocommit_newPhraseSimple (sh : Shared D L) : NoCommit (newPhraseSimple sh) := by
+  unfold newPhraseSimple
+  dsimp only
+  split
+  · nocommit_leaf
+  · intro sh' t h; cases h
+  · intro sh' t h; cases h
+
+theorem nocommit_syllableAnswer (sh : Shared D L) (beh : LayoutBeh) : NoCommit (syllableAnswer env sh beh) := by
+  unfold syllableAnswer
+  repeat' split
+  all_goals first
+    | nocommit_leaf
+    | (refine nocommit_withCom _ _ _ fun c => ?_; nocommit_leaf)
+    | skip
+  all_goals
+    refine nocommit_withCom _ _ _ fun c => ?_
+    dsimp only
+    split
+    · exact nocommit_newPhraseSimple _
+    · nocommit_leaf
+
+theorem nocommit_enteringSyllableNext (sh : Shared D L) (ev : KeyEvent) :
+    NoCommit (enteringSyllableNext env sh ev) := by
+  unfold enteringSyllableNext
+  split
+  · split <;> nocommit_leaf
+  · split
+    · nocommit_leaf
+    · split
+      · split <;> nocommit_leaf
+      · split
+        · exact nocommit_syllableAnswer env _ _
+        · exact nocommit_syllableAnswer env _ _
+
+/-- **the same bound for keys handled while phonetic keys are pending** (`EnteringSyllable`): when the
+    key ends in `Entering` with *absorb* or *commit* — in particular when it completed a syllable that was
+    inserted — the buffer is within the limit -/
+theorem bounded_after_key_syllable (ht : TilingEnv env) {e e' : Editor D L} {ev : KeyEvent} {b : KB}
+    (hs : e.state = .enteringSyllable) (h : e.processKey env ev = .ok (e', b)) (he : e'.state = .entering)
+    (hb : b = .absorb ∨ b = .commit) :
+    e'.shared.com.len ≤ e'.shared.options.autoCommitThreshold := by
+  rcases hb with rfl | rfl
+  · exact bounded_after_absorb env ht h he
+  obtain ⟨sh, st, hd, h2⟩ := processKey_split env h
+  obtain ⟨hst, hb, _⟩ := tail_spec env h2
+  obtain ⟨sh2, h1, hcom, hopt, _, hlast, _⟩ := tail_com env h2
+  rw [hcom, hopt]
+  split at h1
+  · exact (tryAutoCommit_bound env ht h1).1
+  · cases h1
+    exfalso
+    have hl : sh.last = .commit := by rw [← hlast]; exact hb.symm
+    rw [dispatch_syllable_eq env ev hs] at hd
+    obtain ⟨⟨sh', t⟩, hr, hx⟩ := map_ok hd
+    have hnc := nocommit_enteringSyllableNext env (preamble e.shared) ev sh' t hr
+    cases t with
+    | toState s =>
+      simp only [applyTrans] at hx; injection hx with h3 h4; subst h3
+      cases hl
+    | spin b' =>
+      simp only [applyTrans] at hx; injection hx with h3 h4; subst h3
+      have : b' = .commit := hl
+      subst this
+      exact hnc rfl
+
 /-- non-vacuity of the hypothesis: an engine that answers with one interval per symbol tiles -/
 example : TilesLen [{ start := 0, stop := 1, isPhrase := false, text := [97] }, { start := 1, stop := 3, isPhrase := true, text := [98, 99] }] 3 :=
   ⟨by decide, by decide⟩
